@@ -103,6 +103,15 @@ type hFeed struct {
 	Name    string
 	Creator int
 	Svc     string
+	Upper   bool // the creator wrote its address in upper case (the oracle keeps the spelling)
+}
+
+// feedCreator spells the creator's address the way the feed was created with.
+func (h *hist) feedCreator(f hFeed) string {
+	if f.Upper {
+		return strings.ToUpper(h.addr(f.Creator))
+	}
+	return h.addr(f.Creator)
 }
 type hHTLC struct {
 	ID     string
@@ -144,6 +153,7 @@ type world struct {
 	discardedAfterExec, historyShortened, foreignProviders                   int
 	autoPaused, foreignPriced, priceCalls, hugePrices, farRandom             int
 	rateTemplates, nftTwinIDs, toEscrow, hugeValues, oddValues               int
+	upperCreators, upperAddrs, noValue                                       int
 	escrows                                                                  map[string]bool // pool escrow addresses named as recipients
 }
 
@@ -173,8 +183,33 @@ func (w *world) shapeClasses() []string {
 	add(w.hugeValues > 0, "provider-reported-an-astronomical-value")
 	add(w.hugeValues > 0 && w.rateTemplates > 0 && w.foreignPriced > 0, "astronomical-value-in-a-history-with-exchange-rate-feeds-and-bindings-priced-through-them")
 	add(w.oddValues > 0, "provider-reported-zero-or-a-negative-value")
+	add(w.upperCreators > 0, "feed-creator-written-in-upper-case")
+	add(w.upperAddrs > 0, "provider-answered-under-its-address-in-upper-case")
+	add(w.noValue > 0, "response-without-the-member-the-feed-reads")
 	add(w.toEscrow > 0, "coins-sent-to-a-pool-escrow-by-a-third-party")
 	return cl
+}
+
+// spell writes a bech32 address the way a user may: mostly as the SDK prints it, sometimes in upper case (the other
+// spelling the format allows; it denotes the same account).
+func spell(t *rapid.T, addr string) string {
+	if rapid.IntRange(0, 1<<20).Draw(t, "spelling")%5 == 4 {
+		return strings.ToUpper(addr)
+	}
+	return addr
+}
+
+// hOutput is a provider's response output: the value under the member the feeds read ("last"), sometimes under a
+// member spelled otherwise or under none at all (the output schema of the generated services demands no member).
+func hOutput(t *rapid.T, rates bool) string {
+	v := hValue(t, rates)
+	switch rapid.IntRange(0, 1<<20).Draw(t, "member") % 12 {
+	case 10:
+		return fmt.Sprintf(`{"header":{},"body":{"Last":"%s"}}`, v)
+	case 11:
+		return `{"header":{},"body":{}}`
+	}
+	return fmt.Sprintf(`{"header":{},"body":{"last":"%s"}}`, v)
 }
 
 // hValue is the number a provider reports: mostly an everyday price, sometimes zero, negative, tiny or astronomically
@@ -362,8 +397,8 @@ func (h *hist) nextTx(t *rapid.T) (txSpec, bool) {
 		if len(reqs) > 0 {
 			r := pick(t, "feedreq", reqs)
 			if pu := userIndex(h.n, r.provider); pu >= 0 {
-				out := fmt.Sprintf(`{"header":{},"body":{"last":"%s"}}`, hValue(t, w.rateTemplates > 0))
-				msgs := h.enc(&servicetypes.MsgRespondService{RequestId: r.id, Provider: r.provider, Result: hResult, Output: out})
+				out := hOutput(t, w.rateTemplates > 0)
+				msgs := h.enc(&servicetypes.MsgRespondService{RequestId: r.id, Provider: spell(t, r.provider), Result: hResult, Output: out})
 				if rapid.IntRange(0, 5).Draw(t, "discardanswer") == 3 {
 					// the answer (and the feed value it would append) is executed and then discarded with its transaction;
 					// the request stays open and can be answered again
@@ -377,7 +412,7 @@ func (h *hist) nextTx(t *rapid.T) (txSpec, bool) {
 		// the creator shortens the history of a feed that already holds several values
 		for _, f := range w.feeds {
 			if n := len(k.Oracle.GetFeedValues(ctx, f.Name)); n >= 2 {
-				return txSpec{f.Creator, h.enc(&oracletypes.MsgEditFeed{FeedName: f.Name, Description: "[do-not-modify]", LatestHistory: uint64(rapid.IntRange(1, n-1).Draw(t, "shorter")), Creator: h.addr(f.Creator)})}, true
+				return txSpec{f.Creator, h.enc(&oracletypes.MsgEditFeed{FeedName: f.Name, Description: "[do-not-modify]", LatestHistory: uint64(rapid.IntRange(1, n-1).Draw(t, "shorter")), Creator: h.feedCreator(f)})}, true
 			}
 		}
 	}
@@ -468,7 +503,7 @@ func (h *hist) nextTx(t *rapid.T) (txSpec, bool) {
 			return txSpec{u, h.enc(&servicetypes.MsgBindService{ServiceName: randomtypes.ServiceName, Provider: me, Deposit: coins("stake", 30000),
 				Pricing: fmt.Sprintf(`{"price":"%dstake"}`, rapid.IntRange(1, 3).Draw(t, "seedprice")), QoS: uint64(rapid.IntRange(1, 3).Draw(t, "qos")), Options: "{}", Owner: me})}, true
 		case r <= 3 && nprov > 0:
-			return txSpec{u, h.enc(&randomtypes.MsgRequestRandom{BlockInterval: uint64(rapid.IntRange(0, 4).Draw(t, "interval")), Consumer: me, Oracle: true,
+			return txSpec{u, h.enc(&randomtypes.MsgRequestRandom{BlockInterval: uint64(rapid.IntRange(0, 4).Draw(t, "interval")), Consumer: spell(t, me), Oracle: true,
 				ServiceFeeCap: coins("stake", int64(rapid.SampledFrom([]int{10, 10, 2, 1}).Draw(t, "seedcap")))})}, true
 		}
 		interval := uint64(rapid.IntRange(0, 6).Draw(t, "interval"))
@@ -476,7 +511,7 @@ func (h *hist) nextTx(t *rapid.T) (txSpec, bool) {
 			// due beyond the 32-bit range: stays pending for the whole history (and is part of every export)
 			interval = rapid.SampledFrom([]uint64{1 << 31, 3_000_000_000, 1 << 40, 1<<62 - 1}).Draw(t, "far")
 		}
-		return txSpec{u, h.enc(&randomtypes.MsgRequestRandom{BlockInterval: interval, Consumer: me})}, true
+		return txSpec{u, h.enc(&randomtypes.MsgRequestRandom{BlockInterval: interval, Consumer: spell(t, me)})}, true
 	case "nft":
 		switch a := rapid.IntRange(0, 5).Draw(t, "nftop"); {
 		case a == 0 || len(w.nftDenoms) == 0 || (len(w.nftDenoms) == 1 && len(w.nfts) > 0 && a <= 3):
@@ -884,14 +919,14 @@ func (h *hist) nextTx(t *rapid.T) (txSpec, bool) {
 			if pu < 0 {
 				return txSpec{}, false
 			}
-			out := fmt.Sprintf(`{"header":{},"body":{"last":"%s"}}`, hValue(t, false))
+			out := hOutput(t, false)
 			if rid, err := hex.DecodeString(r.id); err == nil {
 				if rq, ok := k.Service.GetRequest(ctx, rid); ok && rq.ServiceName == randomtypes.ServiceName {
 					// the seed service of the random module answers with 32 bytes in hex
 					out = fmt.Sprintf(`{"header":{},"body":{"seed":"%s"}}`, hex.EncodeToString(rapid.SliceOfN(rapid.Byte(), 32, 32).Draw(t, "seed")))
 				}
 			}
-			return txSpec{pu, h.enc(&servicetypes.MsgRespondService{RequestId: r.id, Provider: r.provider, Result: hResult, Output: out})}, true
+			return txSpec{pu, h.enc(&servicetypes.MsgRespondService{RequestId: r.id, Provider: spell(t, r.provider), Result: hResult, Output: out})}, true
 		case a == 8 && len(w.ctxs) > 0:
 			c := pick(t, "ctx", w.ctxs)
 			var m sdk.Msg
@@ -972,18 +1007,18 @@ func (h *hist) nextTx(t *rapid.T) (txSpec, bool) {
 					name = map[string]string{"usdt-stake": "eth-stake", "eth-stake": "usdt-stake"}[name]
 				}
 			}
-			return txSpec{u, h.enc(&oracletypes.MsgCreateFeed{FeedName: name, LatestHistory: uint64(rapid.SampledFrom([]int{1, 2, 2, 2, 3, 4}).Draw(t, "hist")), Description: "feed", Creator: me, ServiceName: b.Svc,
+			return txSpec{u, h.enc(&oracletypes.MsgCreateFeed{FeedName: name, LatestHistory: uint64(rapid.SampledFrom([]int{1, 2, 2, 2, 3, 4}).Draw(t, "hist")), Description: "feed", Creator: spell(t, me), ServiceName: b.Svc,
 				Providers: provs, Input: hInput, Timeout: timeout, ServiceFeeCap: coins("stake", 50), RepeatedFrequency: uint64(timeout) + uint64(rapid.IntRange(0, 3).Draw(t, "freq")),
 				AggregateFunc: pick(t, "agg", []string{"avg", "max", "min"}), ValueJsonPath: "last", ResponseThreshold: uint32(rapid.IntRange(1, len(provs)).Draw(t, "thr"))})}, true
 		}
 		f := pick(t, "feed", w.feeds)
 		switch rapid.IntRange(0, 3).Draw(t, "feedop") {
 		case 0, 1:
-			return txSpec{f.Creator, h.enc(&oracletypes.MsgStartFeed{FeedName: f.Name, Creator: h.addr(f.Creator)})}, true
+			return txSpec{f.Creator, h.enc(&oracletypes.MsgStartFeed{FeedName: f.Name, Creator: h.feedCreator(f)})}, true
 		case 2:
-			return txSpec{f.Creator, h.enc(&oracletypes.MsgPauseFeed{FeedName: f.Name, Creator: h.addr(f.Creator)})}, true
+			return txSpec{f.Creator, h.enc(&oracletypes.MsgPauseFeed{FeedName: f.Name, Creator: h.feedCreator(f)})}, true
 		default:
-			return txSpec{f.Creator, h.enc(&oracletypes.MsgEditFeed{FeedName: f.Name, Description: "[do-not-modify]", LatestHistory: uint64(rapid.SampledFrom([]int{1, 2, 3, 4, 4, 4}).Draw(t, "hist")), Creator: h.addr(f.Creator)})}, true
+			return txSpec{f.Creator, h.enc(&oracletypes.MsgEditFeed{FeedName: f.Name, Description: "[do-not-modify]", LatestHistory: uint64(rapid.SampledFrom([]int{1, 2, 3, 4, 4, 4}).Draw(t, "hist")), Creator: h.feedCreator(f)})}, true
 		}
 	}
 	return txSpec{}, false
@@ -1046,6 +1081,12 @@ func (h *hist) observe(op blockOp, resp *abci.ResponseFinalizeBlock) {
 			case *nfttypes.MsgIssueDenom:
 				w.nftDenoms = append(w.nftDenoms, hDenom{x.Id, tx.User})
 			case *servicetypes.MsgRespondService:
+				if strings.ToUpper(x.Provider) == x.Provider {
+					w.upperAddrs++
+				}
+				if !gjson.Get(x.Output, "body.last").Exists() {
+					w.noValue++
+				}
 				if v := gjson.Get(x.Output, "body.last").String(); v != "" {
 					if f, err := strconv.ParseFloat(v, 64); err == nil && f >= 1e19 {
 						w.hugeValues++
@@ -1132,7 +1173,11 @@ func (h *hist) observe(op blockOp, resp *abci.ResponseFinalizeBlock) {
 					w.ctxs = append(w.ctxs, hCtx{id, tx.User})
 				}
 			case *oracletypes.MsgCreateFeed:
-				w.feeds = append(w.feeds, hFeed{x.FeedName, tx.User, x.ServiceName})
+				up := x.Creator == strings.ToUpper(x.Creator)
+				w.feeds = append(w.feeds, hFeed{x.FeedName, tx.User, x.ServiceName, up})
+				if up {
+					w.upperCreators++
+				}
 			case *oracletypes.MsgEditFeed:
 				if x.LatestHistory > 0 {
 					w.historyShortened++
@@ -1279,16 +1324,16 @@ func (h *hist) ctxLifeTx(t *rapid.T) (txSpec, bool) {
 		switch {
 		case isFeed && rc.State == servicetypes.PAUSED && !pending && len(k.Oracle.GetFeedValues(ctx, f.Name)) < 2:
 			// a feed that was created (paused) and never started, or stopped before it had a history: get it going
-			restart = append(restart, txSpec{f.Creator, h.enc(&oracletypes.MsgStartFeed{FeedName: f.Name, Creator: h.addr(f.Creator)})})
+			restart = append(restart, txSpec{f.Creator, h.enc(&oracletypes.MsgStartFeed{FeedName: f.Name, Creator: h.feedCreator(f)})})
 		case rc.State == servicetypes.PAUSED && rc.BatchState == servicetypes.BATCHCOMPLETED && pending:
 			if isFeed {
-				restart = append(restart, txSpec{f.Creator, h.enc(&oracletypes.MsgStartFeed{FeedName: f.Name, Creator: h.addr(f.Creator)})})
+				restart = append(restart, txSpec{f.Creator, h.enc(&oracletypes.MsgStartFeed{FeedName: f.Name, Creator: h.feedCreator(f)})})
 			} else {
 				restart = append(restart, txSpec{c, h.enc(&servicetypes.MsgStartRequestContext{RequestContextId: id.String(), Consumer: rc.Consumer})})
 			}
 		case rc.State == servicetypes.RUNNING && rc.BatchState == servicetypes.BATCHCOMPLETED && pending:
 			if isFeed {
-				pause = append(pause, txSpec{f.Creator, h.enc(&oracletypes.MsgPauseFeed{FeedName: f.Name, Creator: h.addr(f.Creator)})})
+				pause = append(pause, txSpec{f.Creator, h.enc(&oracletypes.MsgPauseFeed{FeedName: f.Name, Creator: h.feedCreator(f)})})
 			} else {
 				pause = append(pause, txSpec{c, h.enc(&servicetypes.MsgPauseRequestContext{RequestContextId: id.String(), Consumer: rc.Consumer})})
 			}
